@@ -1,2 +1,105 @@
-(* Properties/C16.v — property theorems only. (stub) *)
+(* Properties/C16.v — The interval index reports exactly the intervals covering a
+   position.  Only statements; every proof is [exact <lemma>].
+   Model: Model/Regions.v (NewIndex: events, sort, sweep; At: sort.Search loop).
+   Coordinates and positions range over all of Z; there is no bound on the number of
+   intervals.  Harness-only parts of the property (not stated here): returned slices
+   are private copies, concurrent readers. *)
+From Coq Require Import Sorting.Permutation Sorting.Sorted.
 From Bio Require Import Base.
+From Bio.Model Require Import Regions.
+From Bio.Spec Require Import RegionsSpec.
+From Bio.Proofs Require Import RegionsProofs RegionsProofsB RegionsProofsC.
+Open Scope Z_scope.
+
+(* For equal lengths NewIndex succeeds and At(i) is, for every position i, the
+   ascending list of the x with starts[x] <= i < ends[x]: duplicates and nested
+   intervals are all there, empty and inverted ones (start >= end) never are, and the
+   answer is [] when nothing covers i.  At never panics (the binary search stays in
+   range and within its fuel). *)
+Theorem C16_at_exact : forall starts ends,
+  length starts = length ends ->
+  exists ix, new_index starts ends = Ok ix /\
+    forall i, at_ ix i =
+      Ok (filter (fun x => (nth x starts 0 <=? i) && (i <? nth x ends 0))
+                 (seq 0 (length starts))).
+Proof. exact at_exact. Qed.
+Print Assumptions C16_at_exact.
+
+(* The same for the observable of the correspondence kind regions_at. *)
+Theorem C16_regions_at_exact : forall starts ends queries,
+  length starts = length ends ->
+  regions_at starts ends queries = Ok (map (covering starts ends) queries).
+Proof. exact regions_at_exact. Qed.
+Print Assumptions C16_regions_at_exact.
+
+(* The answer's members, spelled out; empty and inverted intervals are never reported. *)
+Theorem C16_answer_members : forall starts ends i x,
+  length starts = length ends ->
+  (In x (covering starts ends i) <->
+   (x < length starts)%nat /\ nth x starts 0 <= i < nth x ends 0).
+Proof. exact covering_In. Qed.
+Print Assumptions C16_answer_members.
+
+Theorem C16_empty_or_inverted_never_reported : forall starts ends i x,
+  nth x ends 0 <= nth x starts 0 -> ~ In x (covering starts ends i).
+Proof. exact covering_skips_empty. Qed.
+Print Assumptions C16_empty_or_inverted_never_reported.
+
+Theorem C16_answer_ascending : forall starts ends i,
+  StronglySorted lt (covering starts ends i).
+Proof. exact covering_asc. Qed.
+Print Assumptions C16_answer_ascending.
+
+(* The breakpoint positions of the index are strictly ascending: what makes the
+   binary search of At valid. *)
+Theorem C16_breakpoints_sorted : forall starts ends ix,
+  new_index starts ends = Ok ix -> StronglySorted Z.lt (map fst ix).
+Proof. exact breakpoints_strictly_sorted. Qed.
+Print Assumptions C16_breakpoints_sorted.
+
+(* NewIndex panics exactly when the lengths differ (and never returns an error). *)
+Theorem C16_new_index_panics_iff : forall starts ends,
+  new_index starts ends = Panic <-> length starts <> length ends.
+Proof. exact new_index_panics_iff. Qed.
+Print Assumptions C16_new_index_panics_iff.
+
+Theorem C16_regions_at_panics_iff : forall starts ends queries,
+  regions_at starts ends queries = Panic <-> length starts <> length ends.
+Proof. exact regions_at_panics_iff. Qed.
+Print Assumptions C16_regions_at_panics_iff.
+
+(* sort.Slice is unstable and its algorithm unspecified.  eventLess is a strict total
+   order, so any permutation of the events in which no later element is less than an
+   earlier one (sort.Slice's contract) is the list the model's insertion sort builds;
+   and the answers are the same for any such list. *)
+Theorem C16_sort_result_unique : forall evs evs',
+  Permutation evs' evs ->
+  StronglySorted (fun a b => event_less b a = false) evs' ->
+  evs' = sort_events evs.
+Proof. exact sort_events_unique. Qed.
+Print Assumptions C16_sort_result_unique.
+
+Theorem C16_at_exact_any_sort : forall starts ends evs i,
+  length starts = length ends ->
+  Permutation evs (events starts ends) ->
+  StronglySorted (fun a b => event_less b a = false) evs ->
+  at_ (breakpoints evs) i = Ok (covering starts ends i).
+Proof. exact at_exact_any_sort. Qed.
+Print Assumptions C16_at_exact_any_sort.
+
+(* Non-vacuity: the defect input D10 (an inverted and an empty interval), touching,
+   duplicated and nested intervals, negative and huge coordinates. *)
+Example C16_example_d10 :
+  regions_at [5; 2] [3; 2] [7; 4; 2; 1] = Ok [[]; []; []; []]
+  /\ new_index [5; 2] [3; 2] = Ok [(0, [])].
+Proof. vm_compute. auto. Qed.
+
+Example C16_example_mixed :
+  regions_at [0; 2; 0; 1; -(2^62); 3] [2; 4; 2; 9; 2^62; 3] [-1; 0; 1; 2; 3; 4; 9; 2^62]
+  = Ok [[4%nat]; [0; 2; 4]%nat; [0; 2; 3; 4]%nat; [1; 3; 4]%nat; [1; 3; 4]%nat;
+        [3; 4]%nat; [4%nat]; []]
+  /\ length [0; 2; 0; 1; -(2^62); 3] = length [2; 4; 2; 9; 2^62; 3]
+  /\ covering [0; 2; 0; 1; -(2^62); 3] [2; 4; 2; 9; 2^62; 3] 2 = [1; 3; 4]%nat
+  /\ map fst (breakpoints (sort_events (events [0; 2; 0; 1] [2; 4; 2; 9]))) = [0; 1; 2; 4; 9]
+  /\ regions_at [1] [] [0] = Panic.
+Proof. vm_compute. repeat split. Qed.
